@@ -212,7 +212,19 @@ func fieldOwnerTypes(ctx *checkerContext, selector *ast.SelectorExpr) []types.Ty
 // @immutable type outside that type's constructors (and the field is not @mutable).
 // Returns the name of the first such type.
 func immutableFieldOwner(ctx *checkerContext, selector *ast.SelectorExpr) (string, bool) {
-	for _, owner := range fieldOwnerTypes(ctx, selector) {
+	owners := fieldOwnerTypes(ctx, selector)
+
+	// The @mutable mark sits on the type that declares the field (the innermost owner): a
+	// field marked there stays mutable when it is written through an embedding type.
+	if declaring := owners[len(owners)-1]; declaring != nil {
+		if named, ok := util.Deref(declaring).(*types.Named); ok && named.Obj().Pkg() != nil && util.IsPackageLevelType(named) {
+			if ctx.mutableFields.Match(named.Obj().Pkg().Path(), selector.Sel.Name, named.Obj().Name()) {
+				return "", false
+			}
+		}
+	}
+
+	for _, owner := range owners {
 		if owner == nil {
 			continue
 		}
